@@ -246,7 +246,9 @@ CLAIMS["C20"] = (
     "Proof: C20_result_fresh - executing ANY rebuilding plan (the plans of load, dump and convert for every type are "
     "instances) from allocation counter n reports a duplicate-free set of built identities inside [n, n'), and every "
     "container of the result is one it built, a node of the argument (a position passed as is) or a node of a captured "
-    "class default; C20_no_sharing_between_calls, C20_built_is_new. 'Never mutates its argument' is true of a pure model by "
+    "class default; C20_no_sharing_between_calls, C20_built_is_new; C20_repeated_call_gives_equal_result / "
+    "C20_failure_does_not_depend_on_the_moment - the same plan on the same argument from any two allocation counters fails both "
+    "times or gives results equal as values (identities erased). 'Never mutates its argument' is true of a pure model by "
     "construction and is deliberately not a theorem: it is decided by the tie. Tie: alias graphs - every mutable container "
     "of the generated argument is numbered, the library runs, and the result is printed with each container labelled "
     "argument-node-i or new; the model executes load_plan / dump_plan / conv_plan of the same type on the same numbered "
